@@ -102,7 +102,7 @@ func Registry() []*Spec {
 		Covers: []string{"escaped", "plain"}, UnitDepth: 3,
 		Note: "ojg.AppendJSONString for every string of <= N bytes, HTML-safe on and off: output is one JSON string (reference decoder), decodes to the input with invalid UTF-8 replaced by U+FFFD, no raw < > & when HTML-safe, U+2028/9 escaped"})
 	add(Spec{Property: "C04", Name: "VerifC04_Tree", Pkg: "asm",
-		Quick: map[string]int{}, Thorough: map[string]int{"BIGINT": 1},
+		Quick: map[string]int{}, Thorough: map[string]int{"HTML": 1},
 		Covers: []string{"done"}, UnitDepth: 6,
 		Note: "oj.Writer.JSON on 10 tree shapes (depth <= 2) with leaves nil / symbolic bool / symbolic int64 (AppendInt contract stub) / symbolic string <= 2 bytes / 4 concrete floats, symbolic keys <= 2 bytes; Sort, OmitNil, OmitEmpty, HTMLUnsafe x {tight, Indent 2, Tab, symbolic Indent 1..70}: output decodes with the reference decoder to the input minus omitted members"})
 	add(Spec{Property: "C04", Name: "VerifC04_Stream", Pkg: "asm",
@@ -131,7 +131,7 @@ func Registry() []*Spec {
 		Covers: []string{"done"}, UnitDepth: 4,
 		Note: "every string of <= N bytes, and 7 multi-byte UTF-8 templates (2, 3 and 4 byte sequences with a free continuation byte, alone and between letters: covers U+2028/U+2029, U+FFFx, emoji), as top-level value, array element, object value and object key: sen.Parser.Parse(sen.Writer.SEN(v)) gives back v (invalid UTF-8 -> U+FFFD), HTMLUnsafe on and off"})
 	add(Spec{Property: "C10", Name: "VerifC10_Tree", Pkg: "asm",
-		Quick: map[string]int{}, Thorough: map[string]int{"OMIT": 1, "BIGINT": 1},
+		Quick: map[string]int{}, Thorough: map[string]int{"OMIT": 1},
 		Covers: []string{"done"}, UnitDepth: 5,
 		Note: "the C04 tree shapes (symbolic bool / int64 / short string leaves and keys) through sen.Writer under Sort x {tight, Indent 2, Tab} and back through sen.Parser"})
 	// ---- C17: streaming Match equals parse-then-locate
